@@ -330,7 +330,7 @@ func (c *SpecCtx) ident(name string) TT {
 		return TT{T: c.st.alloc}
 	}
 	if g, ok := c.st.ghosts[name]; ok {
-		return TT{T: g}
+		return TT{T: g, Ty: c.ex.ghostTypes[name]}
 	}
 	if c.frame != nil {
 		if v, ok := c.local(name); ok {
